@@ -341,10 +341,10 @@ theorem IS.m_le (s : IS) : s.m ≤ s.rest.length + 1 := by
 iterations are linear, and unless it has found the end of the record it ends on a `)` or on a stream that is no longer good. -/
 theorem C05_terminates_recoveryScan_inner (s : IS) (c : Byte) (q : Bool) (len steps : Nat) :
     ∃ s' c' q' f' len' steps',
-      recoverInner C05.recoveryScanStaysInRecord (s.rest.length + 2) s c q len steps = .ok (s', c', q', f', len', steps')
+      recoverInner C05.recoveryScanStaysInRecord C05.recoveryScanCountsQuotes (s.rest.length + 2) s c q len steps = .ok (s', c', q', f', len', steps')
       ∧ steps' ≤ steps + 4 * (s.rest.length + 1) + 1 ∧ (f' = false → s'.good = true → c' = chRParen) := by
   have hm := IS.m_le s
-  obtain ⟨s', c', q', f', l', st', he, _, h2, h3⟩ := recoverInner_pot 0 C05.recoveryScanStaysInRecord (s.rest.length + 2) s c q len steps (by omega)
+  obtain ⟨s', c', q', f', l', st', he, _, h2, h3⟩ := recoverInner_pot 0 C05.recoveryScanStaysInRecord C05.recoveryScanCountsQuotes (s.rest.length + 2) s c q len steps (by omega)
   have hp := pot_le (R := 0) s
   refine ⟨s', c', q', f', l', st', he, ?_, fun hf => (h2 hf).2.1⟩
   cases f' with
@@ -380,9 +380,9 @@ theorem C05_terminates_readTokenSeparator (s : IS) :
 
 /-- the whole `);` recovery scan of `SDAI_Application_instance::STEPread` (outer and inner loop, regenerated shape) -/
 theorem C05_terminates_recoveryScan (s : IS) (c : Byte) :
-    ∃ r, recoveryScan C05.recoveryScanStaysInRecord C05.recoveryScanPutsBackSemi (s.rest.length + 2) s c = .ok r := by
+    ∃ r, recoveryScan C05.recoveryScanStaysInRecord C05.recoveryScanCountsQuotes C05.recoveryScanPutsBackSemi (s.rest.length + 2) s c = .ok r := by
   have hcl : s.clear.m = s.rest.length + 1 := by simp [IS.clear, IS.m]
-  obtain ⟨r, a, _, _⟩ := recoverOuter_pot 0 C05.recoveryScanStaysInRecord C05.recoveryScanPutsBackSemi (s.rest.length + 2)
+  obtain ⟨r, a, _, _⟩ := recoverOuter_pot 0 C05.recoveryScanStaysInRecord C05.recoveryScanCountsQuotes C05.recoveryScanPutsBackSemi (s.rest.length + 2)
     s.clear c false 0 0 (by omega) (by left; simp [IS.clear, IS.good])
   exact ⟨r, a⟩
 
@@ -546,43 +546,53 @@ theorem C05_recoverLoop_exit (s : IS) (c : Byte) (steps : Nat) :
 /-- the whole `);` recovery scan (`in.clear()` first, then both loops, regenerated shape): at most `4·(|bytes| + 1) + 1`
 steps, and it never un-reads beyond where it started -/
 theorem C05_steps_recoveryScan (s : IS) (c : Byte) :
-    ∃ r, recoveryScan C05.recoveryScanStaysInRecord C05.recoveryScanPutsBackSemi (s.rest.length + 2) s c = .ok r ∧
+    ∃ r, recoveryScan C05.recoveryScanStaysInRecord C05.recoveryScanCountsQuotes C05.recoveryScanPutsBackSemi (s.rest.length + 2) s c = .ok r ∧
       r.s.m ≤ s.rest.length + 1 ∧ r.steps ≤ 4 * (s.rest.length + 1) + 1 := by
   have hcl : s.clear.m = s.rest.length + 1 := by simp [IS.clear, IS.m]
-  obtain ⟨r, a, b', b⟩ := recoverOuter_pot 0 C05.recoveryScanStaysInRecord C05.recoveryScanPutsBackSemi (s.rest.length + 2)
+  obtain ⟨r, a, b', b⟩ := recoverOuter_pot 0 C05.recoveryScanStaysInRecord C05.recoveryScanCountsQuotes C05.recoveryScanPutsBackSemi (s.rest.length + 2)
     s.clear c false 0 0 (by omega) (by left; simp [IS.clear, IS.good])
   have := pot_le (R := 0) s.clear
   exact ⟨r, a, by omega, by omega⟩
 
-/-- The scan with the end-of-record test (`fixes/C05-14`) stays in the record: on a record tail `a ;` without `'` and `)`
-it stops at the `;`, leaves it on the stream, and its cost — fuel and steps `|a| + 1` — does not depend on what follows. -/
+/-- The scan that ends at the first `;` (`fixes/C05-19`) stays in the record: on a record tail `a ;` without `)` — apostrophes
+or not — it stops at the `;`, leaves it on the stream, and its cost — fuel and steps `|a| + 1` — does not depend on what follows. -/
 theorem C05_recoveryScan_stays_in_record (pb : Bool) (pre a b : List Byte) (eof fail sk : Bool) (c : Byte)
-    (ha : ∀ x ∈ a, x ≠ chQuote ∧ x ≠ chRParen ∧ x ≠ chSemi) (hc : c ≠ chRParen) :
-    recoveryScan true pb (a.length + 2) ⟨pre, a ++ chSemi :: b, eof, fail, sk⟩ c =
+    (ha : ∀ x ∈ a, x ≠ chRParen ∧ x ≠ chSemi) (hc : c ≠ chRParen) :
+    recoveryScan true false pb (a.length + 2) ⟨pre, a ++ chSemi :: b, eof, fail, sk⟩ c =
       .ok ⟨⟨a.reverse ++ pre, chSemi :: b, false, false, sk⟩, 1, a.length + 1, a.length + 1⟩ := by
   unfold recoveryScan
-  show recoverOuter true pb (a.length + 1 + 1) _ c false 0 0 = _
+  show recoverOuter true false pb (a.length + 1 + 1) _ c false 0 0 = _
   unfold recoverOuter
   have h := recoverInner_stays a pre b sk c 0 0 (a.length + 1 + 1) ha hc (by omega)
   simp only [IS.clear, IS.good, Bool.not_false, Bool.and_self, Bool.not_true, Bool.false_eq_true, if_false, h, if_true,
     Nat.zero_add]
 
-/-- Without it (the scan as it stood): when no `)` follows, the scan reads to the end of the input — `|rest| + 2` steps for
-every record that ends this way, however short the record is.  With pass 2 resuming behind the record's `;`
-(`STEPfile::ReadInstance`), `n` such records cost `~ n²/2` record lengths. -/
+/-- Without the end-of-record test (the scan as it stood before `fixes/C05-14`): when no `)` follows, the scan reads to the
+end of the input — `|rest| + 2` steps for every record that ends this way, however short the record is.  With pass 2
+resuming behind the record's `;` (`STEPfile::ReadInstance`), `n` such records cost `~ n²/2` record lengths. -/
 theorem C05_recoveryScan_leaves_record_witness (pb : Bool) (pre rest : List Byte) (eof fail sk : Bool) (c : Byte)
     (hr : ∀ x ∈ rest, x ≠ chRParen) (hc : c ≠ chRParen) :
-    recoveryScan false pb (rest.length + 3) ⟨pre, rest, eof, fail, sk⟩ c =
+    recoveryScan false false pb (rest.length + 3) ⟨pre, rest, eof, fail, sk⟩ c =
       .ok ⟨⟨rest.reverse ++ pre, [], true, true, sk⟩, 0, rest.length + 1, rest.length + 2⟩ := by
   unfold recoveryScan
-  show recoverOuter false pb (rest.length + 2 + 1) _ c false 0 0 = _
+  show recoverOuter false false pb (rest.length + 2 + 1) _ c false 0 0 = _
   unfold recoverOuter
   obtain ⟨c', h⟩ := recoverInner_runs_on rest pre sk c false 0 0 (rest.length + 2 + 1) hr hc (by omega)
   simp only [IS.clear, IS.good, Bool.not_false, Bool.and_self, Bool.not_true, Bool.false_eq_true, if_false, h,
     Nat.zero_add, Bool.and_false, Bool.false_and, Bool.not_eq_true]
-  show recoverOuter false pb (rest.length + 1 + 1) _ _ _ _ _ = _
+  show recoverOuter false false pb (rest.length + 1 + 1) _ _ _ _ _ = _
   unfold recoverOuter
   simp [IS.good]
+
+/-- With the end-of-record test *outside string literals* (`fixes/C05-14`, apostrophes counted from where the scan starts): a
+scan that starts inside a literal — here the apostrophe was the character that made `STEPread` give up — takes the closing
+apostrophe for an opening one and runs past the record's `;` (`'';#2=B;` is read to its end): the test has to ignore
+apostrophes to stay in the record (`fixes/C05-19`). -/
+theorem C05_recoveryScan_parity_witness :
+    (recoveryScan true true true 20 (IS.ofBytes [39, 59, 35, 50, 61, 66, 59]) 39) =
+      .ok ⟨⟨[59, 66, 61, 50, 35, 59, 39], [], true, true, true⟩, 0, 8, 9⟩ ∧
+    (recoveryScan true false true 20 (IS.ofBytes [39, 59, 35, 50, 61, 66, 59]) 39) =
+      .ok ⟨⟨[39], [59, 35, 50, 61, 66, 59], false, false, true⟩, 1, 2, 2⟩ := by decide
 
 /-- the export-list loops with the regenerated condition: at most `4·(|bytes| + 1) + readCommentIters + 3` steps over all
 levels (two token separators with their comments per entry) -/
